@@ -11,6 +11,7 @@ package stringclassifier
 import (
 	"fmt"
 	"math/rand"
+	"os"
 	"runtime"
 	"sort"
 	"strings"
@@ -118,11 +119,15 @@ func TestVerifSCConc(t *testing.T) {
 		}
 		// sequential reference on an identical classifier (the lazy sets of the concurrent one stay unbuilt)
 		ref := mk()
+		ref.MinDiffRatio = []float64{ref.MinDiffRatio, 0, -1, 0.5}[r%4]
 		for i, in := range inputs {
 			rec.mm(ref, cid, in, nil, fmt.Sprintf("r%d|mm|%d", r, i))
 			rec.nmFloor(ref, cid, in, fmt.Sprintf("r%d|nm|%d", r, i))
 		}
 		c := mk()
+		// the exported option of the length pre-filter is rarely touched; "consider every value" is any ratio <= 0.  Set before the
+		// first concurrent calls: reading an option must not write it (nothing but the race detector can see such a write)
+		c.MinDiffRatio = ref.MinDiffRatio
 		VerifSink = sink.hook
 		var wg sync.WaitGroup
 		var emu sync.Mutex
@@ -199,6 +204,52 @@ func TestVerifSCConc(t *testing.T) {
 			wg.Wait()
 			gwg.Wait()
 			VerifSink = sink.hook
+		}
+		// many calls in flight at once (every call starts a goroutine per known value, every inexact candidate one more): whatever
+		// bounds or pools the work must not make the calls wait for each other for ever.  A watchdog ends the run if they do.
+		if r%5 == 1 {
+			many := vuEnvInt("VERIF_MANY", 96)
+			VerifSink = nil // results and termination are what this phase is about; 96 more threads would only slow the happens-before validation
+			doneAll := make(chan struct{})
+			go func() {
+				select {
+				case <-doneAll:
+				case <-time.After(time.Duration(vuEnvInt("VERIF_HANG_S", 120)) * time.Second):
+					emu.Lock()
+					out.Emit(map[string]interface{}{"ev": "hang", "what": fmt.Sprintf("%d concurrent MultipleMatch / NearestMatch calls on near copies of %d values did not all return", many, nvals)})
+					out.Flush()
+					os.Exit(3)
+				}
+			}()
+			var mwg sync.WaitGroup
+			wrong := make([]string, many)
+			for i := 0; i < many; i++ {
+				mwg.Add(1)
+				go func(i int) {
+					defer mwg.Done()
+					w := strings.Fields(vals[i%nvals])
+					w[len(w)/2] = "zzqx" // an inexact copy: the diffing path
+					in := "qqzv " + strings.Join(w, " ") + " vvkq " + vals[(i+1)%nvals]
+					ms := c.MultipleMatch(in)
+					found := false
+					for _, m := range ms {
+						found = found || (m.Name == fmt.Sprintf("k%d", (i+1)%nvals+1) && m.Confidence == 1.0)
+					}
+					if !found {
+						wrong[i] = fmt.Sprintf("call %d: the verbatim copy of k%d is not among %d matches", i, (i+1)%nvals+1, len(ms))
+					}
+					c.NearestMatch(in)
+				}(i)
+			}
+			mwg.Wait()
+			close(doneAll)
+			VerifSink = sink.hook
+			for _, w := range wrong {
+				if w != "" {
+					out.Emit(map[string]interface{}{"ev": "addfail", "err": "many calls at once: " + w})
+					break
+				}
+			}
 		}
 		// the same new key registered by all callers at once: exactly one of them succeeds
 		big := strings.Repeat("some long text to normalise \t\n ", 4000)
